@@ -2488,7 +2488,11 @@ impl SignedDurationRound {
             increment,
         );
 
-        let seconds = rounded / t::NANOS_PER_SECOND;
+        // Seconds and nanoseconds are split by truncating toward zero so that
+        // both have the sign of the duration. (Euclidean division would put
+        // a duration of `i64::MIN` seconds with a negative fractional part
+        // one second below `i64::MIN`.)
+        let seconds = rounded.div_ceil(t::NANOS_PER_SECOND);
         let seconds =
             t::NoUnits::try_rfrom("seconds", seconds).map_err(|_| {
                 err!(
@@ -2498,7 +2502,7 @@ impl SignedDurationRound {
                     singular = self.smallest.singular(),
                 )
             })?;
-        let subsec_nanos = rounded % t::NANOS_PER_SECOND;
+        let subsec_nanos = rounded.rem_ceil(t::NANOS_PER_SECOND);
         // OK because % 1_000_000_000 above guarantees that the result fits
         // in a i32.
         let subsec_nanos = i32::try_from(subsec_nanos).unwrap();
